@@ -36,8 +36,11 @@ CLAIMED = {
          "differential check: the model replays the declaration script of the predefined catalogue "
          "(extracted from /repo on every run) and of random user catalogues and is compared with "
          "the library on unit pairs x {*,/} x operand kinds, powers, numbers; independent oracle "
-         "computes value, dimension and type from its own bookkeeping and the SI table.",
-         "DESIGN.md 5 (C02), 10",
+         "computes value, dimension and type from its own bookkeeping and the SI table. The operator "
+         "layer (Unit / Quantity __mul__, __truediv__, __rtruediv__, _pow, __pow__, per kind of second "
+         "operand, cache included) is re-translated from the source on every run (Gen/OpsImpl.v) and "
+         "proved equal to the model's operators (C02_model_is_translated_code).",
+         "DESIGN.md 3.7, 5 (C02), 10",
          "Normalised definitions are represented by their denotation (that Term.normalized computes it is C07). "
          "Also proved for every reachable directory: the result TYPE has exactly the combined dimension "
          "(invariant 'the definition of every unit denotes its type's dimension'), and UndefinedResultError "
@@ -104,9 +107,12 @@ CLAIMED = {
          "equal values; operations preserve the invariants; undefined results are not cached and "
          "become defined once a unit for the dimension is registered. In-Coq differential check "
          "with histories, plus process-pair oracle: same declarations in another order and no "
-         "history, values (amount in base units, dimension, type) must be equal.",
-         "DESIGN.md 5 (C17), 10", "That the implementation has no further hidden memo is what the process pairs test; "
-         "the theorem is about the model's cache."),
+         "history, values (amount in base units, dimension, type) must be equal. The cached unit "
+         "operations (Unit.__mul__ / __truediv__ with _UNIT_OP_CACHE) are re-translated from the "
+         "source on every run (Gen/OpsImpl.v) and proved equal to the model's (C17_model_is_translated_code).",
+         "DESIGN.md 3.7, 5 (C17), 10", "That the implementation has no further hidden memo OUTSIDE the "
+         "translated methods is what the process pairs test; the theorem is about the model's cache, which "
+         "is the translated code's."),
 }
 AGENT_CLAIMS = os.path.join(V, 'tools', 'claims')
 for pid in list(CLAIMED):
